@@ -1,6 +1,7 @@
 """C15 - calls are pure: inputs untouched, results repeatable, no state across calls."""
 import random
 from runtime import harness as H
+from props import _ded as D
 from runtime import t3_misc as T
 from props._algos import partition_calls, pack_calls
 
@@ -39,4 +40,5 @@ def t3(rep, tier, seed):
 def run(rep, tier, seed):
     rep.level = "exploration"
     rep.assume("A4", "A6", "A8")
+    D.run_static(rep, "C15", ("frame", "purity"))
     t3(rep, tier, seed)
